@@ -62,10 +62,19 @@ impl ExponentialBackoff {
     }
 }
 
+/// Computes `initial * multiplier^attempt`, saturating instead of overflowing.
+fn exponential_interval(initial: Duration, multiplier: f64, attempt: usize) -> Duration {
+    if initial.is_zero() {
+        return Duration::ZERO;
+    }
+    let exponent = attempt.min(i32::MAX as usize) as i32;
+    let secs = initial.as_secs_f64() * multiplier.powi(exponent);
+    Duration::try_from_secs_f64(secs).unwrap_or(Duration::MAX)
+}
+
 impl IntervalFunction for ExponentialBackoff {
     fn next_interval(&self, attempt: usize) -> Duration {
-        let multiplier = self.multiplier.powi(attempt as i32);
-        let interval = self.initial_interval.mul_f64(multiplier);
+        let interval = exponential_interval(self.initial_interval, self.multiplier, attempt);
 
         if let Some(max) = self.max_interval {
             interval.min(max)
@@ -119,14 +128,13 @@ impl ExponentialRandomBackoff {
         let min = duration.as_secs_f64() - delta;
         let max = duration.as_secs_f64() + delta;
         let randomized = rng.random_range(min..=max);
-        Duration::from_secs_f64(randomized.max(0.0))
+        Duration::try_from_secs_f64(randomized.max(0.0)).unwrap_or(Duration::MAX)
     }
 }
 
 impl IntervalFunction for ExponentialRandomBackoff {
     fn next_interval(&self, attempt: usize) -> Duration {
-        let multiplier = self.multiplier.powi(attempt as i32);
-        let interval = self.initial_interval.mul_f64(multiplier);
+        let interval = exponential_interval(self.initial_interval, self.multiplier, attempt);
 
         let capped = if let Some(max) = self.max_interval {
             interval.min(max)
